@@ -349,3 +349,7 @@ Proof.
   cbn [orb]. change (basis_y ROps) with (V3 0 1 0).
   destruct (w2v_degenerate ROps p t (V3 0 1 0)); [discriminate|reflexivity].
 Qed.
+
+(* domain of world_to_view: camera position and target differ, up is not parallel to the viewing direction *)
+Definition camera_ok (position target up : vec3 R) : Prop :=
+  target <> position /\ vcross ROps (vsub ROps target position) up <> V3 0 0 0.
